@@ -255,3 +255,71 @@ pub async fn hostile_requests(_a: &Value) -> Value {
     let still = ok_call(&honest).await && ok_call(&hostile).await;
     json!({"sent": sent, "unanswered": unanswered, "wrongly_accepted": wrongly_ok, "serving_stopped_after": if still { Value::Null } else { json!("the end") }, "server_closed": server.is_closed()})
 }
+
+/// C01: nothing carried IN a message can supply or influence the PeerId attributed to it.  `names` are header names (every `&str` constant the
+/// library declares -- read from its source on every run -- plus a few an implementer might reach for); each is filled with ANOTHER peer's identity in
+/// several spellings.  (a) a lying (anemo) replier puts them on error and success replies: the typed client (rpc::client::Rpc::unary ->
+/// Status::peer_id / Response::peer_id) and the untyped one (Network::rpc) must still name the replier's authenticated key.  (b) a raw dialer
+/// puts them on a request: the handler must still see the dialer's authenticated key.
+pub async fn identity_claims_in_headers(a: &Value) -> Value {
+    use anemo::rpc::codec::BincodeCodec;
+    let names: Vec<String> = a.get("names").and_then(|x| x.as_array()).map(|v| v.iter().filter_map(|s| s.as_str().map(|s| s.to_owned())).collect()).unwrap_or_default();
+    let names = std::sync::Arc::new(names);
+    // the replier: status and the claimed identity come from the request ("x-status", "x-claim"); every name carries the claim; the body is echoed;
+    // and it reports whom IT saw as the sender (the first 32 bytes of an untyped reply to route /whoami)
+    let n2 = names.clone();
+    let liar_service = tower::ServiceExt::boxed_clone(tower::service_fn(move |r: Request<Bytes>| { let names = n2.clone(); async move {
+        if r.route() == "/whoami" {
+            let seen = r.peer_id().map(|p| p.0.to_vec()).unwrap_or_default();
+            return Ok::<_, std::convert::Infallible>(Response::new(Bytes::from(seen)));
+        }
+        let status: u16 = r.headers().get("x-status").and_then(|s| s.parse().ok()).unwrap_or(200);
+        let claim = r.headers().get("x-claim").cloned().unwrap_or_default();
+        let mut resp = Response::new(r.into_body()).with_status(anemo::types::response::StatusCode::new(status).unwrap());
+        for n in names.iter() { resp = resp.with_header(n.clone(), claim.clone()); }
+        Ok(resp)
+    } }));
+    let mut c = Config::default();
+    c.connect_timeout_ms = Some(3000);
+    let liar = anemo::Network::bind("127.0.0.1:0").server_name("verif").private_key([71; 32]).config(c).start(liar_service).expect("liar");
+    let victim = net(72, 10);
+    let caller = net(73, 10);
+    let liar_id = caller.connect(liar.local_addr()).await.expect("connect liar");
+    let victim_id = caller.connect(victim.local_addr()).await.expect("connect victim");   // the victim is a peer the caller knows and is connected to
+    let spellings: Vec<String> = vec![hex::encode(victim_id.0), hex::encode_upper(victim_id.0), format!("0x{}", hex::encode(victim_id.0)), format!("{}", victim_id), format!("{:?}", victim_id),
+                                      String::from_utf8_lossy(&victim_id.0).into_owned(), serde_json::to_string(&victim_id.0.to_vec()).unwrap()];
+    let mut replies = Vec::new();
+    for claim in spellings.iter() {
+        for status in [200u16, 400, 404, 500, 520] {
+            let peer = caller.peer(liar_id).expect("peer");
+            let mut rpc = anemo::rpc::client::Rpc::new(peer);
+            let req = Request::new(7u64).with_route("/x").with_header("x-status", status.to_string()).with_header("x-claim", claim.clone());
+            let typed = tokio::time::timeout(Duration::from_secs(3), rpc.unary(req, BincodeCodec::<u64, u64>::default())).await;
+            let typed_named = match typed { Ok(Ok(resp)) => resp.peer_id().map(|p| p.0.to_vec()), Ok(Err(st)) => st.peer_id().map(|p| p.0.to_vec()), Err(_) => None };
+            let req = Request::new(Bytes::from_static(&[7, 0, 0, 0, 0, 0, 0, 0])).with_route("/x").with_header("x-status", status.to_string()).with_header("x-claim", claim.clone());
+            let untyped = tokio::time::timeout(Duration::from_secs(3), caller.rpc(liar_id, req)).await;
+            let untyped_named = match untyped { Ok(Ok(resp)) => resp.peer_id().map(|p| p.0.to_vec()), _ => None };
+            replies.push(json!({"claim": claim, "status": status, "typed_names_replier": typed_named.as_deref() == Some(&liar_id.0[..]), "typed_names_victim": typed_named.as_deref() == Some(&victim_id.0[..]),
+                                "untyped_names_replier": untyped_named.as_deref() == Some(&liar_id.0[..])}));
+        }
+    }
+    // (b) a raw dialer claims the victim's identity in request headers
+    let (ep, raw_pub) = raw_client(74, "verif");
+    let mut requests = Vec::new();
+    if let Ok(Ok(conn)) = tokio::time::timeout(Duration::from_secs(3), ep.connect(liar.local_addr(), "verif").unwrap()).await {
+        if let Ok(Ok(mut rx)) = tokio::time::timeout(Duration::from_secs(2), conn.accept_uni()).await { let mut b = [0u8; 8]; let _ = rx.read_exact(&mut b).await; }
+        for claim in spellings.iter() {
+            let hs: Vec<(&str, &str)> = names.iter().map(|n| (n.as_str(), claim.as_str())).filter(|(n, _)| *n != "timeout").collect();
+            let fut = async {
+                let (mut tx, mut rx) = conn.open_bi().await.ok()?;
+                tx.write_all(&encode_request_with("/whoami", &hs, b"")).await.ok()?;
+                tx.finish().ok()?;
+                decode_response(&rx.read_to_end(1 << 20).await.ok()?)
+            };
+            let r = tokio::time::timeout(Duration::from_secs(3), fut).await;
+            let seen = match r { Ok(Some((200, b))) => Some(b), _ => None };
+            requests.push(json!({"claim": claim, "handler_saw_the_dialer": seen.as_deref() == Some(&raw_pub[..]), "handler_saw_the_victim": seen.as_deref() == Some(&victim_id.0[..]), "answered": seen.is_some()}));
+        }
+    }
+    json!({"names": names.len(), "replies": replies, "requests": requests})
+}
